@@ -7,6 +7,7 @@ use crate::runner::*;
 use serde_json::{json, Value};
 use std::collections::BTreeSet;
 use std::path::Path;
+use proptest::strategy::Strategy;
 
 #[derive(Clone)]
 pub struct Profile {
@@ -55,7 +56,19 @@ pub fn run_profile(ctx: &RunCtx, p: &Profile, cases: u64, report: &mut Report) {
     let runf = |c: &Case, d: &Path| run_history(c, d, p, &findings);
     run_replays::<Case, _>(ctx, p.phase, &ctx.verif_dir.join("replays").join(p.id), runf, report);
     let runf = |c: &Case, d: &Path| run_history(c, d, p, &findings);
-    let mk = || case_strategy(cfg_strategy(p.keylens, p.short_defer), &p.gen);
+    // C15 also runs with a corrupted dir under another name (a third of the configurations)
+    let other_cdir = p.id == "C15";
+    let mk = || {
+        let cfg = cfg_strategy(p.keylens, p.short_defer)
+            .prop_map(move |mut c| {
+                if other_cdir && c.group % 3 == 0 {
+                    c.corrupted_dir = Some("quarantine".to_string());
+                }
+                c
+            })
+            .boxed();
+        case_strategy(cfg, &p.gen)
+    };
     run_generated(ctx, p.phase, cases, mk, runf, &sample_case, report);
 }
 
